@@ -248,7 +248,7 @@ func (w *kqueue) Close() error {
 
 	pathsToRemove := w.watches.listPaths(false)
 	for _, name := range pathsToRemove {
-		w.Remove(name)
+		w.rm(name, false)
 	}
 
 	unix.Close(w.closepipe[1]) // Send "quit" message to readEvents
@@ -288,7 +288,12 @@ func (w *kqueue) remove(name string, unwatchFiles bool) error {
 	if w.isClosed() {
 		return nil
 	}
+	return w.rm(name, unwatchFiles)
+}
 
+// rm is remove without the isClosed check, so Close can release the
+// descriptors after marking the Watcher as closed.
+func (w *kqueue) rm(name string, unwatchFiles bool) error {
 	name = filepath.Clean(name)
 	info, ok := w.watches.byPath(name)
 	if !ok {
